@@ -2,7 +2,9 @@
 
 PROP = {'areas': [{'also': ['C01:monitor:104'],
             'area': 'engine',
-            'corpus': ['corpus/engine/d11_half_encoded_connect_service_time.script',
+            'corpus': ['corpus/engine/c04_qos2_three_connections.script',
+                       'corpus/engine/c04_repeated_pubrec_two_pubrels.script',
+                       'corpus/engine/d11_half_encoded_connect_service_time.script',
                        'corpus/engine/d12_keep_alive_one_second.script',
                        'corpus/engine/d14_close_with_queued_disconnect.script',
                        'corpus/engine/d21_slow_start_failed_attempt.script',
